@@ -139,7 +139,7 @@ class Kit(object):
             return gen_ti.poison_sites(K)
         if m == "M-DI":
             return gen_ti.di_poison_sites(K)
-        return [{"kind": "compose", "field": f, "bad": b, "good": K["compose"][f]} for f, bads in gen_im.COMPOSE_POISON for b in bads]
+        return [{"kind": "compose", "field": f, "bad": b, "good": K["compose"][f]} for f, bads in gen_im.COMPOSE_POISON for b in pools.with_generic(bads)]
 
     def poison(self, site, slot=0):
         m = self.machine
